@@ -1,15 +1,24 @@
-"""C04 translator plugin: FixpointTables.
+"""C04 translator plugin: FixpointTables, PathLookup.
 
 * `parseLiteralTable` — `parse_literal` of typer/src/typer/expressions.rs: which `ir::Constant` variant an `ast::Literal`
   of each suffix kind becomes (and with which payload expression), or that it is rejected;
 * `castDropLayers` — the `to_literal` test of the `Cast` arm of `generate_expression` (hlsl/src/ast_generate.rs): the
   layers, after `remove_modifier`, for which no cast is emitted.
+* `PathLookup` — the lookup discipline behind every emitted path: the bodies of `Context::find_identifier` and
+  `Context::walk_into_scopes` (typer/src/typer/scopes.rs) and of `scoped_name_to_identifier` (hlsl/src/ast_generate.rs),
+  comments removed and white space normalised, plus what is read out of them structurally: the start scope of each
+  `ScopedIdentifierBase`, the base the exporter prints, the stages of `find_identifier_in_scope` in order and what its
+  symbol loop does with every `ScopeSymbol` variant.  `Thm.C04.path_lookup_as_modelled` compares them with the
+  transcriptions next to `Model.FixpointNames.find`.
 """
 import re
 
 
 def register(gen, T):
-    from rustsrc import ExtractError, fn_body, first_match, match_arms, normws, enum_variants
+    from rustsrc import ExtractError, fn_body, first_match, match_arms, normws, enum_variants, split_top
+
+    def split_top_commas(text):
+        return [p for p in split_top(text, ',') if p.strip()]
 
     @gen("FixpointTables")
     def fixpoint_tables():
@@ -117,4 +126,71 @@ def register(gen, T):
         out.append("def retagPayloads : List (String × String × String) :=\n  " + T.lean_list(
             '("%s", "%s", "%s")' % r for r in rows2) + "\n")
         out.append(T.footer("FixpointTables"))
+        return "".join(out)
+
+    @gen("PathLookup")
+    def path_lookup():
+        from rustsrc import lean_str
+        scopes = T.src("typer/src/typer/scopes.rs")
+        hlsl = T.src("hlsl/src/ast_generate.rs")
+        out = [T.header("PathLookup", ["typer/src/typer/scopes.rs", "hlsl/src/ast_generate.rs"])]
+        fi = normws(fn_body(scopes, "find_identifier"))
+        wi = normws(fn_body(scopes, "walk_into_scopes"))
+        sn = normws(fn_body(hlsl, "scoped_name_to_identifier"))
+        out.append("/-- body of `Context::find_identifier` -/\ndef findIdentifierSource : String :=\n  %s\n\n" % lean_str(fi))
+        out.append("/-- body of `Context::walk_into_scopes` -/\ndef walkIntoScopesSource : String :=\n  %s\n\n" % lean_str(wi))
+        out.append("/-- body of `scoped_name_to_identifier` -/\ndef scopedNameToIdentifierSource : String :=\n  %s\n\n" % lean_str(sn))
+        # ---- where the walk starts for each base
+        m = re.search(r'let mut scope_index = match id\.base \{(.*?)\};', fi)
+        if not m:
+            raise ExtractError("find_identifier: `let mut scope_index = match id.base {..}` not found")
+        starts = []
+        for part in split_top_commas(m.group(1)):
+            pm = re.match(r'^ast::ScopedIdentifierBase::(\w+) => (.*)$', part.strip())
+            if not pm:
+                raise ExtractError(f"find_identifier: base arm {part!r} unsupported")
+            starts.append((pm.group(1), pm.group(2).strip()))
+        out.append("/-- `ScopedIdentifierBase` variant ↦ the scope the outward walk starts in -/\n")
+        out.append("def startScope : List (String × String) :=\n  " + T.lean_list('("%s", "%s")' % x for x in starts) + "\n\n")
+        # ---- the base the exporter prints
+        m = re.search(r'base: ast::ScopedIdentifierBase::(\w+)', sn)
+        if not m:
+            raise ExtractError("scoped_name_to_identifier: `base:` not found")
+        out.append("/-- the base of every identifier the exporter builds from a qualified name -/\n")
+        out.append('def emittedBase : String := "%s"\n\n' % m.group(1))
+        # ---- find_identifier_in_scope: stages and symbol arms
+        fs = fn_body(scopes, "find_identifier_in_scope")
+        marks = [("variables", r'scope\s*\.variables\s*\.find_variable\('), ("symbols", r'scope\.symbols\.get\('),
+                 ("overloads", r'if !overloads\.is_empty\(\)'), ("owning_struct", r'scope\.owning_struct'),
+                 ("types", r'if let ScopeSymbol::Type\(id\) = symbol')]
+        pos = []
+        for name, pat in marks:
+            mm = re.search(pat, fs)
+            if not mm:
+                raise ExtractError(f"find_identifier_in_scope: stage {name} not found")
+            pos.append((mm.start(), name))
+        out.append("/-- the stages of `find_identifier_in_scope` in the order they are tried -/\n")
+        out.append("def findInScopeStages : List String := " + T.lean_list('"%s"' % n for _, n in sorted(pos)) + "\n\n")
+        _, arms_text, _ = first_match(fs, r'^symbol$')
+        arms = []
+        for pats, guard, result in match_arms(arms_text):
+            if guard is not None:
+                raise ExtractError("find_identifier_in_scope: guarded arm")
+            r = normws(result)
+            if re.fullmatch(r'\{\s*\}', r):
+                act = "skip"
+            elif re.fullmatch(r'overloads\.push\(\*id\)', r):
+                act = "gather"
+            elif "return Some(" in r and "overloads" not in r:
+                act = "return"
+            else:
+                raise ExtractError(f"find_identifier_in_scope: arm {pats!r} => {r[:60]!r} unsupported")
+            for p_ in pats:
+                pm = re.match(r'^ScopeSymbol::(\w+)(\(.*\))?$', p_)
+                if not pm:
+                    raise ExtractError(f"find_identifier_in_scope: pattern {p_!r} unsupported")
+                arms.append((pm.group(1), act))
+        out.append("/-- what the symbol loop of `find_identifier_in_scope` does with each `ScopeSymbol` variant -/\n")
+        out.append("def findInScopeArms : List (String × String) :=\n  " + T.lean_list('("%s", "%s")' % a for a in arms) + "\n")
+        out.append(T.footer("PathLookup"))
         return "".join(out)
